@@ -559,6 +559,8 @@ def r207(ctx):
         """'far' (|d| > c L), 'near' (|d| <= c L) or 'all'; returns (kind, c)."""
         kind, cval = "all", None
         for test, truth in guards:
+            while isinstance(test, ast.UnaryOp) and isinstance(test.op, ast.Not):
+                test, truth = test.operand, not truth
             if not (isinstance(test, ast.Compare) and len(test.ops) == 1):
                 raise S.Undecidable("guard is not a single comparison")
             l, r, op = test.left, test.comparators[0], test.ops[0]
